@@ -178,8 +178,10 @@ def gen_top(rng):
         elif c < 0.7:
             comps.append(["DecInt"])
             comps.append(["FixStr", rng.choice(["/", ";", "x"])])
-        elif c < 0.85:
+        elif c < 0.80:
             comps.append(["Rooms"])
+        elif c < 0.90:
+            comps.append(["ValuedRooms", rng.choice([["OneOf", [["HexInt"], ["Spaces", -1, "g"]]], ["HexInt"], ["Dict", [0, 1], ["p", "q"]]])])
         else:
             comps.append(["Seq", ["HexInt"], rng.randint(1, 4)])
     return ["Tupl", comps]
